@@ -41,6 +41,10 @@ func WithMaxInputsForDefrag(n int) Option {
 // WithMaxDefragUTXOs sets the maximum number of additional utxos that will be
 // added to a transaction when defragging
 func WithMaxDefragUTXOs(n int) Option {
+	if n < 0 {
+		panic("max defrag utxos must not be negative") // developer error
+	}
+
 	return func(c *config) {
 		c.MaxDefragUTXOs = n
 	}
